@@ -11,7 +11,9 @@
 //	opengate        let the held caller continue
 //	finish i r      function i returns r (nil | err | canceled); then wait for its decrement section
 //	finishonctx i r function i blocks until its context is cancelled, then returns r
-//	probe i         function i (still running) looks at ctx.Err()
+//	probe i         look at Err() of the context that was handed to function i (the function stashes it
+//	                at entry; the look is allowed while it runs and after it and the call returned)
+//	waitret         wait (bounded) until the call has returned (not logged)
 //	cancel          cancel the caller's context
 //	settle          wait until nothing has been logged for a short while (not logged)
 //	quiesce         (opens the gate,) waits for the grace period and logs pending call / functions waiting for ctx
@@ -45,7 +47,7 @@ type fnErr struct{ j int }
 func (e *fnErr) Error() string { return fmt.Sprintf("e%d", e.j) }
 
 type cmd struct {
-	kind string // finish | finishonctx | probe
+	kind string // finish | finishonctx
 	res  string
 	ack  chan struct{}
 }
@@ -56,7 +58,8 @@ type fnState struct {
 	done    chan struct{} // closed when the function returned
 	once    sync.Once
 	dOnce   sync.Once
-	count   int // number of entries (guarded by run.mu)
+	count   int             // number of entries (guarded by run.mu)
+	ctx     context.Context // the context handed to the function (guarded by run.mu)
 }
 
 type run struct {
@@ -128,6 +131,7 @@ func exec(script []string, opt comp.Options) comp.Result {
 		return func(fctx context.Context) error {
 			r.mu.Lock()
 			st.count++
+			st.ctx = fctx
 			r.mu.Unlock()
 			log.Add("cbin %d", i)
 			st.once.Do(func() { close(st.entered) })
@@ -139,13 +143,6 @@ func exec(script []string, opt comp.Options) comp.Result {
 					return nil
 				}
 				switch c.kind {
-				case "probe":
-					if fctx.Err() != nil {
-						log.Add("probe %d cancelled", i)
-					} else {
-						log.Add("probe %d live", i)
-					}
-					close(c.ack)
 				case "finish":
 					log.Add("cbout %d %s", i, resTok(i, c.res))
 					close(c.ack)
@@ -378,12 +375,36 @@ func exec(script []string, opt comp.Options) comp.Result {
 				continue
 			}
 			i, err := strconv.Atoi(f[1])
-			if err != nil {
+			if err != nil || !waitEntered(i) {
+				continue
+			}
+			r.mu.Lock()
+			fctx := fst[i].ctx
+			r.mu.Unlock()
+			if fctx == nil {
 				continue
 			}
 			ret := callReturned()
-			if send(i, cmd{kind: "probe"}) && ret {
+			// the look and the log line are one atomic step w.r.t. the log, so that a "live" look
+			// can never be logged after the "ret" line of a call whose deferred cancel came later
+			log.With(func([]int) []string {
+				if fctx.Err() != nil {
+					return []string{fmt.Sprintf("probe %d cancelled", i)}
+				}
+				return []string{fmt.Sprintf("probe %d live", i)}
+			})
+			if ret {
 				tags.Add("probe-after-return")
+				if isDone(i) {
+					tags.Add("probe-after-function-returned")
+				}
+			}
+		case "waitret":
+			if called {
+				select {
+				case <-callDone:
+				case <-time.After(3 * opt.Grace):
+				}
 			}
 		case "cancel":
 			if cancelled {
@@ -530,6 +551,12 @@ func gen(rng *rand.Rand, tier string) []string {
 	if len(onctx) > 0 && rng.Intn(2) == 0 {
 		out = append(out, "cancel", "quiesce")
 	}
+	// the context handed to the functions after the call returned
+	for _, i := range live {
+		if rng.Intn(2) == 0 {
+			out = append(out, fmt.Sprintf("probe %d", i))
+		}
+	}
 	return out
 }
 
@@ -581,6 +608,10 @@ func enumerate(n int) [][]string {
 				if gated {
 					s = append(s, "opengate")
 				}
+				s = append(s, "waitret")
+				for i := 0; i < n; i++ {
+					s = append(s, fmt.Sprintf("probe %d", i))
+				}
 				s = append(s, "fquiesce")
 				out = append(out, s)
 			}
@@ -626,6 +657,12 @@ func init() {
 			{"fns f", "call", "probe 0", "finish 0 err", "fquiesce"},
 			{"fns f", "call", "cancel", "probe 0", "quiesce", "finish 0 nil", "fquiesce"},
 			{"fns f", "call", "finishonctx 0 canceled", "quiesce", "cancel", "quiesce"},
+			// the context handed to the function(s) is cancelled after the return, also on the fast path
+			// for one function (seeded change C17-s2: the single function got the caller's own context)
+			{"fns f", "call", "probe 0", "finish 0 nil", "waitret", "probe 0", "fquiesce"},
+			{"fns f", "call", "finish 0 err", "waitret", "probe 0", "fquiesce"},
+			{"fns f f", "call", "finish 0 nil", "finish 1 nil", "waitret", "probe 0", "probe 1", "fquiesce"},
+			{"fns f n f", "gate", "call", "finish 2 canceled", "finish 0 nil", "opengate", "waitret", "probe 0", "probe 2", "fquiesce"},
 			// nothing finishes: the call stays pending
 			{"fns f f", "call", "quiesce", "finish 0 nil", "quiesce", "finish 1 nil", "quiesce"},
 		},
